@@ -254,8 +254,11 @@ class C04Runner(LineRunner):
 
 
 CONFIGS = {
-    "plain": ({"max_cmds": 3, "bad": False, "hs_sizes": (0, 1, 5, 100)}, 30),
-    "bad_targets": ({"max_cmds": 3, "bad": True, "hs_sizes": (0, 1, 5, 100)}, 23),
+    "plain": ({"max_cmds": 3, "bad": False, "hs_sizes": (0, 1, 5, 100)}, 26),
+    "bad_targets": ({"max_cmds": 3, "bad": True, "hs_sizes": (0, 1, 5, 100)}, 21),
+    # fault: the shell is stopped and continued while it is blocked feeding a here-string (the interrupted
+    # write returns a partial count)
+    "stalled_shell": ({"max_cmds": 2, "bad": False, "hs_sizes": (65536, 70000, 150000), "stall": True}, 6),
     "big_here_strings": ({"max_cmds": 2, "bad": False, "hs_sizes": (100, 65536, 70000, 150000)}, 15),
     "builtins": ({"max_cmds": 3, "bad": False, "builtins": True, "hs_sizes": (0, 5)}, 10),
     "open_faults": ({"max_cmds": 2, "bad": False, "open_fault": True, "hs_sizes": (0, 5)}, 12),
@@ -277,6 +280,9 @@ def make_case(seed, index):
             break
     sc = gen_scenario(rng, CONFIGS[name][0])
     sc["config"] = name
+    if CONFIGS[name][0].get("stall"):
+        sc["stall_shell"] = True
+        sc["stall_until_idle"] = rng.chance(50)
     sc["adversarial_picks"] = rng.choice([0, 5, 20, 60, 150, 400])
     return sc, rng
 
